@@ -496,6 +496,24 @@ struct Exec
             }
         }
         const std::vector<int> *pref = (flags & 2) != 0 ? &kids : nullptr;
+        std::vector<int> withPeer;
+        if ((flags & 16) != 0 && (formIsPtr(form) || formIsName(form))) {
+            // aim at an entity that has a look-alike elsewhere in the scope of the call
+            auto sc = scopeOf(cur, c.t, fam, c.search);
+            std::map<std::string, int> count;
+            for (int k : sc) {
+                ++count[skeyOf(w.ent(k))];
+            }
+            for (int k : sc) {
+                if (count[skeyOf(w.ent(k))] > 1) {
+                    withPeer.push_back(k);
+                }
+            }
+            if (!withPeer.empty()) {
+                pref = &withPeer;
+                ctx.count("container_call_aimed_at_entity_with_lookalike_in_scope");
+            }
+        }
         Kind ck = FAM_KIND[fam];
         int like = (flags & 8) != 0 && !kids.empty() ? kids[size_t(st.arg(1)) % kids.size()] : NONE;
         bool needX = form == ADD || formIsPtr(form) || formIsName(form);
@@ -1850,6 +1868,9 @@ Plan generate(Rng &rng, const Opts &opts, uint64_t runIndex)
         long flags = long(rng.below(16));
         if (!rng.chance(1, 3)) {
             flags |= 2; // mostly aim at the target's own children
+        }
+        if (p.c("lookalikes", 0) != 0 && e.cat == C_CONT && rng.chance(1, 3)) {
+            flags |= 16 | 1; // aim at an entity with a look-alike in the (searched) scope
         }
         int slot = (flags & 4) != 0 ? 1 : 0;
         long bad = B_GOOD;
